@@ -205,6 +205,26 @@ fn gv(engine0: &Engine, rng: &mut Rng, corpus: &Corpus, evs: &mut Vec<Value>) ->
     Ok(())
 }
 
+/// A stream "without GV" is one whose voice says USE_GV = 0 - even if GV PDFs happen to be present in the Voice value
+/// (built here through the public fields): its trajectory must not depend on the GV weight.
+fn gv_flag_off(path: &str, corpus: &Corpus, evs: &mut Vec<Value>) -> Result<(), String> {
+    use jbonsai::model::{load_htsvoice_file, VoiceSet};
+    let mut voice = load_htsvoice_file(&path.to_string()).map_err(|e| e.to_string())?;
+    let Some(s) = (0..voice.stream_models.len()).find(|s| voice.stream_models[*s].gv_model.is_some()) else { return Ok(()) };
+    voice.stream_models[s].metadata.use_gv = false;
+    let vs = VoiceSet::new(vec![std::sync::Arc::new(voice)]).map_err(|e| e.to_string())?;
+    let mut cond = jbonsai::Condition::default();
+    cond.load_model(&vs).map_err(|e| e.to_string())?;
+    let mut engine = Engine::new(vs, cond);
+    let lines: Vec<String> = corpus.lines[20..26].to_vec();
+    let a = trajectories(&engine, &lines)?;
+    engine.condition.set_gv_weight(s, 1.7);
+    let b = trajectories(&engine, &lines)?;
+    let (x, y) = match s { 0 => (a.0, b.0), 1 => (a.1, b.1), _ => (a.2, b.2) };
+    evs.push(json!({"ev": "gvoff", "stream": s, "flag_only": true, "unaffected": digest2(&x) == digest2(&y)}));
+    Ok(())
+}
+
 /// silence-only utterance: no frame is GV-eligible, the trajectory must be the plain ML solution
 fn gv_none(engine0: &Engine, corpus: &Corpus, evs: &mut Vec<Value>) -> Result<(), String> {
     let sil: Vec<String> = corpus.lines.iter().filter(|l| l.contains("-sil+") || l.contains("-pau+")).take(3).cloned().collect();
@@ -279,6 +299,7 @@ pub fn record(mode: &str, seed: u64, n: usize, out_path: &str, paths: &[String])
             "gv" => {
                 if *it < engines.len() {
                     gv_none(engine, &corpus, &mut evs)?;
+                    gv_flag_off(&paths[*it], &corpus, &mut evs)?;
                 }
                 gv(engine, &mut rng, &corpus, &mut evs)
             }
